@@ -467,7 +467,9 @@ def run():
         if norm(b) not in expect:
             raise ExtractError("%s changed shape: %r" % (what, norm(b)[:200]))
     fp(ec, EC, None, r"void\s+ExternalCommand::start\s*\(BuildSystem& system,\s*core::TaskInterface ti\)",
-       ["skipValue = llvm::None; missingInputKeys.clear(); unsigned id = 0; for (auto it = inputs.begin(), ie = inputs.end(); it != ie; ++it, ++id) { "
+       # (the two assignments are the F47 repair: per-build state reset; they do not affect the request list)
+       ["skipValue = llvm::None; missingInputKeys.clear(); canUpdateIfNewer = true; hasPriorResult = false; unsigned id = 0; "
+        "for (auto it = inputs.begin(), ie = inputs.end(); it != ie; ++it, ++id) { "
         "ti.request(BuildKey::makeNode(*it).toData(), id); } startExternalCommand(system, ti);"], "ExternalCommand::start")
     fp(bs, BS, "TargetTask", r"virtual\s+void\s+start\s*\(TaskInterface ti\)\s*override",
        ["unsigned id = 0; for (auto it = target.getNodes().begin(), ie = target.getNodes().end(); it != ie; ++it, ++id) { "
